@@ -311,6 +311,21 @@ func (e *env) runMux(ws []string) string {
 			break
 		}
 	}
+	if len(regs) >= 3 && allOK(ro) {
+		rev := make([]muxReg, len(regs))
+		for i, g := range regs {
+			rev[len(regs)-1-i] = g
+		}
+		if ro2, so2 := muxImpl(rev, paths); allOK(ro2) {
+			for i := range so {
+				if so[i] != so2[i] {
+					e.fail("mux-order-dependent", fmt.Sprintf("path %q: registered in the given order handler %s ran, registered in reverse order %s (registrations: %s)",
+						paths[i], so[i], so2[i], showMuxRegs(regs)), []string{"mux regs=" + showMuxRegs(regs) + " paths=" + hexs(paths[i]), "mux regs=" + showMuxRegs(rev) + " paths=" + hexs(paths[i])})
+					break
+				}
+			}
+		}
+	}
 	return "reg=" + showList(ro) + " route=" + showList(so)
 }
 
@@ -798,7 +813,32 @@ func (e *env) runRouter(ws []string) string {
 			break
 		}
 	}
+	// direct oracle for order independence: a duplicate-free registration list
+	// must decide every request alike when registered in reverse order
+	if len(regs) >= 3 && allOK(ro) {
+		rev := make([]rReg, len(regs))
+		for i, g := range regs {
+			rev[len(regs)-1-i] = g
+		}
+		_, so2 := routerImpl(idx, def, rev, reqs)
+		for i := range so {
+			if so[i] != so2[i] {
+				e.fail("router-order-dependent", fmt.Sprintf("%s %q: registered in the given order the router did %s, registered in reverse order %s (routes: %s)",
+					reqs[i].method, reqs[i].path, so[i], so2[i], showRouterRegs(regs)), []string{mk(regs, []rReq{reqs[i]}), mk(rev, []rReq{reqs[i]})})
+				break
+			}
+		}
+	}
 	return "reg=" + showList(ro) + " serve=" + showList(so)
+}
+
+func allOK(rs []string) bool {
+	for _, r := range rs {
+		if r != "ok" {
+			return false
+		}
+	}
+	return true
 }
 
 // ---------------------------------------------------------------- nested routers behind a scribbling handler
@@ -1509,8 +1549,13 @@ func genMux(s *sink, r *hx.Rand, thorough bool) {
 			s.add("mux regs=" + showMuxRegs(regs) + " paths=" + paths)
 		})
 	}
-	if thorough {
-		small := strs(1, 2)
+	{
+		// every triple of Prefix / Exact / Dir registrations (all orders, duplicates included)
+		// over strings that are each other's Dir bases and Dir prefixes
+		small := []string{"a", "a/", "/", "ab", "a/b", "b", "b/", "/a"}
+		if thorough {
+			small = strs(1, 2)
+		}
 		tuples(len(small)*3, 3, func(ix []int) {
 			if s.stop {
 				return
@@ -1750,6 +1795,43 @@ func genRouter(s *sink, r *hx.Rand, thorough bool) {
 	// every sequence of 3 over representatives of every canonical route shape
 	reps := []string{"a", "b", "ab", "a/a", "a/b", "b/a", "a/", "/b", "aa"}
 	emit(reps, kinds[:3], 3, reqsGet)
+	// mixed Dir/File sets under shared prefixes, three levels deep, in every order:
+	// every sequence of 3 (thorough: 4) pairwise different (shape, kind) items
+	{
+		shapes := []string{"a", "a/b", "a/b/c", "a/c", "a/b/a", "b", "/b/a/"}
+		fd := kinds[:2]
+		var dp []string
+		for _, x := range []string{"a", "b", "c"} {
+			dp = append(dp, x)
+			for _, y := range []string{"a", "b", "c"} {
+				dp = append(dp, x+"/"+y)
+				for _, z := range []string{"a", "b", "c"} {
+					dp = append(dp, x+"/"+y+"/"+z, x+"/"+y+"/"+z+"/a")
+				}
+			}
+		}
+		var deep []string
+		for _, p := range dp {
+			deep = append(deep, "/"+p, p+"/")
+		}
+		rq := showReqs(routerReqs(deep, []string{"GET"}))
+		k := 3
+		if thorough {
+			k = 4
+		}
+		seqs(len(shapes)*len(fd), k, func(ix []int) {
+			if s.stop {
+				return
+			}
+			var regs []rReg
+			for t, i := range ix {
+				regs = append(regs, mkReg(i, shapes, fd, t+1))
+			}
+			idx, def := idxdef(cnt)
+			cnt++
+			s.add(fmt.Sprintf("router idx=%s def=%s regs=%s reqs=%s", showOptTag(idx), showOptTag(def), showRouterRegs(regs), rq))
+		})
+	}
 	if thorough {
 		emit(pool, kinds[:2], 3, reqsGet)
 		emit(reps[:7], kinds[:3], 4, reqsGet)
